@@ -35,6 +35,8 @@ def classify(o, r):
         return "C16-F18: VTODO with DTSTART, DUE, COMPLETED, CREATED: DUE offset overwritten by COMPLETED-CREATED"
     if rec and rec["bound"] and rec.get("order", ["FREQ"])[0] == "BOUND":
         return "C16-F16: RRULE whose first part is COUNT/UNTIL treated as unbounded"
+    if rec and not rec["bound"] and X.ref_start(o) in rec["ex"]:
+        return "C16: unbounded rule whose first instance is removed by EXDATE: enclosing range / answer taken from DTSTART"
     if rec and o.get("kind") == "DATE" and (o["t"] == "VJOURNAL" or (o["t"] == "VEVENT" and not o["end"])):
         return "C16-F12: recurring all-day object without DTEND/DURATION: instances treated as one second"
     if (o["t"] == "VJOURNAL" and o["start"] is None) or (rec and not X.occurrences(X.ref_start(o), rec, X.ref_start(o) + 400 * X.DAY, 80)):
@@ -86,8 +88,12 @@ def run(ctx):
     rng = ctx.rng
 
     corpus = X.corpus()
-    nobj = ctx.n(170, 2000)
-    objs = [c[1] for c in corpus] + [X.gen_obj(rng) for _ in range(nobj)]
+    nobj = ctx.n(150, 2000)
+    nlead = ctx.n(30, 400)
+    leading = [X.gen_leading_ex(rng, t, forever) for i in range(nlead)
+               for t, forever in [(["VEVENT", "VTODO", "VJOURNAL"][i % 3], (i // 3) % 3 != 2)]]
+    objs = [c[1] for c in corpus] + leading + [X.gen_obj(rng) for _ in range(nobj)]
+    ctx.count("object:first-instances-removed-by-EXDATE", len(leading))
     for o in objs:
         ctx.count("object:%s" % o["t"])
         ctx.count("rule:%s" % ("none" if not o.get("rec") else (o["rec"]["bound"][0] if o["rec"]["bound"] else "unbounded")))
@@ -186,7 +192,7 @@ def run(ctx):
     ctx.count("cases:fill", len(fcases))
 
     # ------------------------------------------------------------------ level 3: REPORTs over the in-process server
-    report_level(ctx, objs, corpus, first_violation)
+    report_level(ctx, objs, corpus, first_violation, leading)
     freebusy_level(ctx, objs)
 
 
@@ -230,10 +236,10 @@ def build_filters(variant, comp, r):
     raise AssertionError(variant)
 
 
-def report_level(ctx, objs, corpus, first_violation):
+def report_level(ctx, objs, corpus, first_violation, leading):
     rng = ctx.rng
     batch_size = 10
-    nbatches = ctx.n(6, 40)
+    nbatches = ctx.n(7, 40)
     qper = ctx.n(16, 40)
     pool = list(objs)
     rcases = []
@@ -244,12 +250,16 @@ def report_level(ctx, objs, corpus, first_violation):
             if b == 0:
                 batch = [c[1] for c in corpus]          # the regression corpus as one collection
                 qranges = [(c[1], c[2]) for c in corpus]
+            elif b == 1 or b % 7 == 1:
+                # a collection of objects whose first instance(s) are removed by EXDATE; queries in the gap
+                batch = [leading[rng.randrange(len(leading))] for _ in range(batch_size)]
+                qranges = [(o, X.leading_gap_ranges(rng, o, 1)[0]) for o in batch for _ in range(2)]
             else:
                 batch = [pool[rng.randrange(len(pool))] for _ in range(batch_size)]
                 qranges = []
             path = "/u/c%d/" % b
             put_objects(srv, path, batch)
-            while len(qranges) < (len(corpus) if b == 0 else 0) + qper:
+            while len(qranges) < (len(corpus) if b == 0 else 20 if b % 7 == 1 else 0) + qper - (8 if b % 7 == 1 else 0):
                 o = rng.choice(batch)
                 qranges.append((o, X.boundary_ranges(rng, o, 1)[0]))
             for qi, (o, r) in enumerate(qranges):
